@@ -278,7 +278,10 @@ func (b *basicCommonValidator) Validate(data interface{}) (res *Result) {
 
 	for _, enumValue := range b.Enum {
 		actualType := reflect.TypeOf(enumValue)
-		if actualType == nil { // Safeguard
+		if actualType == nil {
+			if data == nil { // null is a member of an enum that lists null
+				return nil
+			}
 			continue
 		}
 
